@@ -114,6 +114,10 @@ pub fn c02(f: &Facts, o: &Outcome) -> Vec<String> {
     let cv = cookie_view(f.sc, f.intent, f.presented_auth.as_deref(), o.wall_before);
     let ss = sends(o);
     let enc_req = ss.iter().find_map(|p| if let CbPacket::EncRequest { should_auth, .. } = p { Some(*should_auth) } else { None });
+    // the cookie is only ever asked for on a Transfer-intent connection with a configured secret
+    if ss.iter().any(|p| matches!(p, CbPacket::CookieRequest(k) if k == b"passage:authentication")) && !(f.intent == 3 && f.sc.secret.is_some()) {
+        why.push(format!("the authentication cookie was requested on a connection with handshake intent {} and {} secret: only a Transfer with a configured secret may skip authentication", f.intent, if f.sc.secret.is_some() { "a" } else { "no" }));
+    }
     if let Some(should_auth) = enc_req {
         let skipped = !should_auth;
         if skipped != cv.accepted { why.push(format!("authentication {} although the cookie is {} ({})", if skipped { "skipped" } else { "demanded" }, if cv.accepted { "valid" } else { "not acceptable" }, cv.why)); }
